@@ -659,7 +659,9 @@ def gen_uf(rng, full=False):
         if el:
             M[np.ix_(el, el)] = spd(el)
             B[np.ix_(el, el)] = spd(el) / 4
-        spec.update(full=True, K=K.tolist(), M=M.tolist(), B=B.tolist())
+        # memory layout of the caller's matrices: C order, Fortran order (what op4/MATLAB readers and LAPACK-based
+        # routines return) -- a routine that lets LAPACK work in place behaves differently on the two
+        spec.update(full=True, K=K.tolist(), M=M.tolist(), B=B.tolist(), layout=rng.choice(["C", "F", "F"]))
     return json_fr(spec)
 
 
@@ -689,6 +691,8 @@ def uf_arrays(spec):
         sol.pg = f(spec["pg"])
     if spec["full"]:
         m, b, k = np.array(spec["M"]), np.array(spec["B"]), np.array(spec["K"])
+        if spec.get("layout") == "F":
+            m, b, k = np.asfortranarray(m), np.asfortranarray(b), np.asfortranarray(k)
     else:
         m = None if spec["m"] is None else np.array([float(fr(v)) for v in spec["m"]])
         b = np.array([float(fr(v)) for v in spec["b"]])
@@ -743,6 +747,8 @@ def uf_impl_all(spec):
     res["shared"] = [pack(dr_event.apply_uf(sol, u, m, b, k, spec["nrb"], rf, save)) for u in ufs]
     res["fresh"] = [pack(dr_event.apply_uf(sol, u, m, b, k, spec["nrb"], rf)) for u in ufs]
     pgs = [getattr(so[u], "pg", None) for u in ufs]
+    _, m0, b0, k0, _, _ = uf_arrays(spec)
+    res["inputs_unchanged"] = all(x is None or np.array_equal(x, y) for x, y in ((m, m0), (b, b0), (k, k0)))
     return res, pgs
 
 
@@ -889,6 +895,7 @@ def correspondence(ctx):
             if spec["soli"] is not None:
                 model = model + 1j * uf_parse(got[1])
             impl, pgs = uf_impl_all(spec)
+            impl.pop("inputs_unchanged", None)
             nontriv = spec["nrb"] < spec["n"]
             ctx.case(spec, nontrivial=nontriv, branch="stream:uf")
             ctx.count("branch:uf-all-rigid" if not nontriv else ("branch:uf-with-rf" if spec["rf"] else "branch:uf-elastic-only"))
@@ -1198,6 +1205,9 @@ def oracle_uf(spec):
     for nm in ("a", "v", "d"):
         if not np.array_equal(getattr(sol, nm), getattr(keep, nm)):
             fails.append(("apply-uf-mutates-input", "sol.%s changed" % nm, spec, None, None))
+    if not impl.pop("inputs_unchanged"):
+        fails.append(("apply-uf-mutates-input", "the caller's m, b or k changed during apply_uf (%s-ordered matrices): "
+                      "later calls see different modal data" % spec.get("layout", "C"), spec, None, None))
     M = np.eye(n) if m is None else (np.diag(m) if m.ndim == 1 else m)
     B = np.diag(b) if b.ndim == 1 else b
     K = np.diag(k) if k.ndim == 1 else k
